@@ -33,7 +33,7 @@ func init() {
 		Run:   c03Run,
 		Kinds: []core.Kind{core.ReplayOf("mw", c03Check)},
 		Rule: "every (tie vector, allocation) class with n1+n2 <= bound under each of 25 configurations of (MannWhitneyExactLimit, MannWhitneyTiesExactLimit) in {0,3,25,50,1e6}^2 so the same data goes through both methods; " +
-			"all permutations of both samples (n1+n2<=6); six strictly increasing maps; swap law; zeros written with both signs; every pair of overlapping windows of the pooled series as aliased arguments; error cases (empty sides, constant data of sizes 1..8) in every configuration; " +
+			"all permutations of both samples (n1+n2<=6); eight strictly increasing maps (two onto adjacent floats); swap law; zeros written with both signs; every pair of overlapping windows of the pooled series as aliased arguments; error cases (empty sides, constant data of sizes 1..8) in every configuration; " +
 			"a complete size family n1,n2 in {1,2,7,24,25,26,49,50,51,100,300,600} x data patterns at default limits. Non-trivial: result not an error and 0<U<n1*n2 or ties present.",
 		Technique: "bounded-exhaustive input x configuration enumeration of the real MannWhitneyUTest; exact permutation model in the exact branch, statement formula (exact rational variance, erfc) in the normal branch",
 		Assumptions: []string{
@@ -377,6 +377,8 @@ var c03Maps = []struct {
 	{"-1/(x+1)", func(x float64) float64 { return -1 / (x + 1) }},
 	{"x+1e9", func(x float64) float64 { return x + 1e9 }},
 	{"x/1024-7", func(x float64) float64 { return x/1024 - 7 }},
+	{"1+x*2^-52 (adjacent floats)", func(x float64) float64 { return 1 + x*0x1p-52 }},
+	{"1e9+x*2^-23 (adjacent floats near 1e9)", func(x float64) float64 { return 1e9 + x*0x1p-23 }},
 }
 
 // c03Map: one strictly increasing map applied to all values changes nothing.
